@@ -205,6 +205,7 @@ def unaryFn (op : String) (dt : String) (params : List String) : UnF :=
   match op, params with
   | "clamp", [lo, hi] => fun x => .app3 "clamp" x (.lit s!"{lo}:{dt}") (.lit s!"{hi}:{dt}")
   | "apply", _ => if dt == "b" then (fun x => x) else fun x => .app2 "add" x x
+  | "applyerr", _ => if dt == "b" then (fun x => x) else fun x => .app2 "add" x x
   | _, _ => fun x => .app1 op x
 
 /-- element types `E.Map` has an arm for (all sixteen specialised types + pointers are not generated) -/
@@ -219,7 +220,8 @@ def stepUn (ps : PState) (op a : String) (rest : List String) : PState × StepOu
   match ps.obj a with
   | none => (ps.failVar, .fields "r=skip")
   | some (aId, x) =>
-    if op == "apply" then applyEng ps aId po (engMap ps.st (unaryFn op x.dt params) mapTypes x po.o) else
+    if op == "apply" || op == "applyerr" then
+      applyEng ps aId po (engMap ps.st (unaryFn op x.dt params) mapTypes x po.o (op == "applyerr")) else
     match unaryClasses.find? (·.1 == op) with
     | none => (ps.failVar, .fields "r=badprog")
     | some (_, tc, kt) => applyEng ps aId po (engUnary ps.st (unaryFn op x.dt params) tc kt (op != "clamp") x po.o)
